@@ -461,7 +461,7 @@ theorem enter_then_sim (hload : LoadSim load load' R) (f : β → β × Option E
     obtain ⟨hR, hr⟩ := hf b b' hy.2
     exact ⟨withCur_sim hy.1 hR, by rw [hr]⟩
 
-theorem first_sim (hops : OpsSim ops ops' R) (hload : LoadSim load load' R)
+private theorem first_sim (hops : OpsSim ops ops' R) (hload : LoadSim load load' R)
     (c : RC β) (c' : RC β') (h : RCRel R c c') :
     StepRel R (c.first ops load) (c'.first ops' load') := by
   unfold RC.first
@@ -477,7 +477,7 @@ theorem first_sim (hops : OpsSim ops ops' R) (hload : LoadSim load load' R)
     | none => exact ⟨⟨h1.base, h1.levels, h1.log, h1.inner, trivial⟩, rfl⟩
     | some e => exact enter_then_sim hload ops.first ops'.first hops.first c1 c1' e h1
 
-theorem last_sim (hops : OpsSim ops ops' R) (hload : LoadSim load load' R)
+private theorem last_sim (hops : OpsSim ops ops' R) (hload : LoadSim load load' R)
     (c : RC β) (c' : RC β') (h : RCRel R c c') :
     StepRel R (c.last ops load) (c'.last ops' load') := by
   unfold RC.last
@@ -493,7 +493,7 @@ theorem last_sim (hops : OpsSim ops ops' R) (hload : LoadSim load load' R)
     | none => exact ⟨⟨h1.base, h1.levels, h1.log, h1.inner, trivial⟩, rfl⟩
     | some e => exact enter_then_sim hload ops.last ops'.last hops.last c1 c1' e h1
 
-theorem ge_sim (hops : OpsSim ops ops' R) (hload : LoadSim load load' R) (q : Bytes)
+private theorem ge_sim (hops : OpsSim ops ops' R) (hload : LoadSim load load' R) (q : Bytes)
     (c : RC β) (c' : RC β') (h : RCRel R c c') :
     StepRel R (c.ge ops load q) (c'.ge ops' load' q) := by
   unfold RC.ge
@@ -556,7 +556,7 @@ theorem rel_tail_sim (hops : OpsSim ops ops' R) (hload : LoadSim load load' R) (
     | none => exact ⟨h1, rfl⟩
     | some e => exact enter_then_sim hload f f' hf c1 c1' e h1
 
-theorem next_sim (hops : OpsSim ops ops' R) (hload : LoadSim load load' R) (fixF1 : Bool)
+private theorem next_sim (hops : OpsSim ops ops' R) (hload : LoadSim load load' R) (fixF1 : Bool)
     (c : RC β) (c' : RC β') (h : RCRel R c c') :
     StepRel R (c.next ops load fixF1) (c'.next ops' load' fixF1) := by
   unfold RC.next
@@ -574,7 +574,7 @@ theorem next_sim (hops : OpsSim ops ops' R) (hload : LoadSim load load' R) (fixF
       exact rel_tail_sim hops hload fixF1 .next ops.first ops'.first hops.first _ _
         (withCur_sim h hR)
 
-theorem prev_sim (hops : OpsSim ops ops' R) (hload : LoadSim load load' R) (fixF1 : Bool)
+private theorem prev_sim (hops : OpsSim ops ops' R) (hload : LoadSim load load' R) (fixF1 : Bool)
     (c : RC β) (c' : RC β') (h : RCRel R c c') :
     StepRel R (c.prev ops load fixF1) (c'.prev ops' load' fixF1) := by
   unfold RC.prev
